@@ -66,6 +66,7 @@ type ibcH struct {
 	ackKeys []string
 	pkts    map[string]ibcPkt // src "channel/seq" -> packet (from send_packet events)
 	debug   bool
+	malformed bool // the current history carries a hand-written malformed memo (parser panics belong to C15)
 }
 
 func (h *ibcH) signer() string { return h.c.Accs[3].Addr.String() }
@@ -658,7 +659,7 @@ func (h *ibcH) opRecv(p ibcPkt) relayOut {
 		seqs = append(seqs, fmt.Sprintf("%d", s.P.Sequence))
 	}
 	h.e.In("recv %s %d swap=%s tok=%s seqs=%s", p.P.SourceChannel, p.P.Sequence, swapExt, t, strings.Join(seqs, ","))
-	h.e.Oracle("no_panic", out.cls != "panic" || func() bool { c, _ := memoClass(p.Data.Memo); return c == "panic" }(), "MsgRecvPacket %s", p.key())
+	h.e.Oracle("no_panic", out.cls != "panic" || h.malformed, "MsgRecvPacket %s", p.key())
 	h.observe(out.cls)
 	return out
 }
@@ -752,6 +753,7 @@ func (h *ibcH) runHistory(sc scenario) {
 	}
 	memo := h.buildMemo(sc, rin, rout, pool)
 	feat := fmt.Sprintf("dir=%d strategy=%s has_change=%v has_forward=%v receiver=%s provider=%v fail=%s", sc.dir, sc.strat, sc.change.present && sc.strat == "out", sc.forward.present, sc.receiver, sc.provider, orDash(sc.fail))
+	h.malformed = sc.memoRaw != ""
 	if sc.memoRaw != "" {
 		feat = "malformed_memo=true"
 	}
@@ -764,7 +766,11 @@ func (h *ibcH) runHistory(sc scenario) {
 		return
 	}
 	preRecv := h.snapshot()
-	cls, _ := memoClass(memo)
+	cls, mdParsed := memoClass(memo)
+	swapWouldSucceed := false
+	if cls == "swap" && memo != "" && mdParsed.AmountStrategy != nil {
+		swapWouldSucceed = strings.HasPrefix(h.dryRunSwap(mdParsed, denomIn, sc.amount), "ok") && mdParsed.Route.DenomIn == denomIn
+	}
 	rr := h.opRecv(in)
 	e.Stat("recv." + rr.cls)
 	e.Stat("memo." + cls)
@@ -813,6 +819,9 @@ func (h *ibcH) runHistory(sc scenario) {
 			sent = sent[1:]
 		}
 	}
+	if len(legs) == 2 {
+		e.Stat("both_legs")
+	}
 	outstanding := func() int {
 		n := 0
 		for _, l := range legs {
@@ -834,11 +843,21 @@ func (h *ibcH) runHistory(sc scenario) {
 			}
 			_, _, ni, no := h.storeLines()
 			e.Oracle("failed_swap_refused", same && ni == 0 && no == 0, "%s error-ack=%s balances_unchanged=%v records=%d/%d", feat, tok(ackNow), same, ni, no)
+			legsFine := (!sc.forward.present || true) && sc.fail == ""
+			if legsFine && swapWouldSucceed {
+				e.Oracle("refused_only_if_swap_fails", false, "%s receiver_holds_input=%v the swap itself succeeds, yet the packet is refused (%s)", feat, preRecv[sc.receiver+"."+denomIn].IsPositive(), tok(ackNow))
+			}
 			e.Stat("swap.refused")
 		} else {
 			e.Stat("swap.accepted")
 			okm, why := modUnchanged(preRecv, postRecv)
-			e.Oracle("module_balance_unchanged", okm, "%s after=recv %s", feat, why)
+			keptRem := delta(preRecv, postRecv, "module:swap", denomIn).Equal(sc.amount.Sub(delta(preRecv, postRecv, poolName, denomIn)))
+			for _, d := range h.denoms {
+				if d != denomIn && !delta(preRecv, postRecv, "module:swap", d).IsZero() {
+					keptRem = false
+				}
+			}
+			e.Oracle("module_balance_unchanged", okm, "%s after=recv kept_is_remainder=%v %s", feat, keptRem, why)
 			// received = swappedIn + remainderReturned  (remainder returned = what the receiver got + what the change leg carries)
 			swappedIn := delta(preRecv, postRecv, poolName, denomIn)
 			toRecv := delta(preRecv, postRecv, sc.receiver, denomIn)
@@ -923,6 +942,7 @@ func (h *ibcH) runHistory(sc scenario) {
 			}
 			l.timeouts++
 			if resent {
+				e.Stat("resend")
 				l.cur = r.sent[0]
 				l.received = false
 				prepare(l)
@@ -987,7 +1007,14 @@ func (h *ibcH) runHistory(sc scenario) {
 			e.Oracle("ack_reports_each_leg", good, "%s legs=%d ack=%s", feat, len(legs), tok(final))
 		}
 		okm, why := modUnchanged(pre, h.snapshot())
-		e.Oracle("module_balance_unchanged", okm, "%s after=end %s", feat, why)
+		endSnap := h.snapshot()
+		keptRemEnd := delta(pre, endSnap, "module:swap", denomIn).Equal(sc.amount.Sub(delta(pre, endSnap, poolName, denomIn)))
+		for _, d := range h.denoms {
+			if d != denomIn && !delta(pre, endSnap, "module:swap", d).IsZero() {
+				keptRemEnd = false
+			}
+		}
+		e.Oracle("module_balance_unchanged", okm, "%s after=end kept_is_remainder=%v %s", feat, keptRemEnd, why)
 	}
 	// ---- relay the incoming packet's acknowledgement back to the sender's side
 	if _, has := h.acks[inKey]; has {
@@ -1039,7 +1066,7 @@ func (h *ibcH) genScenario(k int) scenario {
 	sc.strat = []string{"in", "in", "out", "out", "out", "out"}[combo]
 	sc.forward.present = combo%2 == 1
 	sc.change.present = combo >= 4
-	if r.N(4) == 0 {
+	if r.N(5) == 0 {
 		sc.receiver = "f0"
 	}
 	sc.amount = sdkmath.NewIntFromBigInt(r.Big(9)).AddRaw(1000)
@@ -1065,11 +1092,9 @@ func (h *ibcH) genScenario(k int) scenario {
 		if att == 0 {
 			att = 3
 		}
-		// mostly no retry; sometimes every count up to exhaustion
-		if r.N(3) == 0 {
+		// half of the legs see timeouts: every count up to exhaustion
+		if r.N(2) == 0 {
 			l.timeouts = r.N(att + 1)
-		} else if r.N(4) == 0 && att == 1 {
-			l.timeouts = 1
 		}
 	}
 	if sc.forward.present {
@@ -1078,7 +1103,7 @@ func (h *ibcH) genScenario(k int) scenario {
 	if sc.change.present {
 		mk(&sc.change)
 	}
-	switch r.N(9) {
+	switch r.N(14) {
 	case 0:
 		sc.fail = r.Pick("route_in", "route_out", "pool")
 	case 1:
